@@ -478,6 +478,8 @@ class TFLiteSemantic:
         axis_tens = op.inputs[0]
         input_tens = op.inputs[1]
         dims = len(input_tens.shape)
+        if axis_tens.values is None:
+            return False, f"Op has non-constant axis tensor '{axis_tens.name}'"
         # handle axis being a scalar or 1-D array
         if axis_tens.values.ndim == 0:
             axis = int(axis_tens.values)
@@ -494,6 +496,8 @@ class TFLiteSemantic:
         axis_tens = op.inputs[0]
         input_tens = op.inputs[1]
         dims = len(input_tens.shape)
+        if axis_tens.values is None:
+            return False, f"Op has non-constant axis tensor '{axis_tens.name}'"
         # handle axis being a scalar or 1-D array
         if axis_tens.values.ndim == 0:
             axis = int(axis_tens.values)
